@@ -3,6 +3,8 @@
 package main
 
 import (
+	"encoding/json"
+
 	limited_rationality "github.com/Azbesciak/RealDecisionMaker/lib/logic/limited-rationality"
 	aspect_elimination "github.com/Azbesciak/RealDecisionMaker/lib/logic/limited-rationality/aspect-elimination"
 	"github.com/Azbesciak/RealDecisionMaker/lib/model"
@@ -143,6 +145,43 @@ func init() {
 			wc := d.Criteria.ZipWithWeights(&params.Weights)
 			m.Stage = "check-c12"
 			o.Spec(m, L(A("check-c12"), altsSX(ordered), wcritsSX(*wc), heurLevelsSX(levels), aspEntriesSX(rk)))
+			// the request's ordering configuration must still decide after biases changed criteria / parameters
+			if r.chance(0.3) && len(d.Criteria) >= 2 {
+				q2 := cloneJ(q.Body)
+				var bl []interface{}
+				for i, nb := 0, r.rangeInt(1, 2); i < nb; i++ {
+					name := []string{"criteriaOmission", "criteriaOmission", "preferenceReversal", "fatigue", "criteriaConcealment"}[r.Intn(5)]
+					pr := biasPropsJSON(r, name, q.Problem)
+					if name == "criteriaOmission" {
+						pr["max"], pr["ratio"] = len(d.Criteria)-1-i, 0.5
+						delete(pr, "min")
+					}
+					if name == "criteriaConcealment" {
+						pr["newCriterionScaling"] = 1
+					}
+					bl = append(bl, J{"name": name, "props": pr})
+				}
+				q2["biases"] = bl
+				js2, _ := json.Marshal(q2)
+				var dm2 model.DecisionMaker
+				if json.Unmarshal(js2, &dm2) == nil {
+					tr := tracedDecide(&dm2)
+					if tr.Err == "" && tr.Eval != nil && len(tr.Eval.Live.Criteria) >= 1 {
+						dF := tr.Eval.Live
+						if pF, ok := dF.MethodParameters.(aspect_elimination.AspectEliminationHeuristicParams); ok {
+							wcF := dF.Criteria.ZipWithWeights(&pF.Weights)
+							lvF, msgLF, capF := heurGoLevels(increasingSatisfactionLevels, pF.Function, pF.Params, dF)
+							if msgLF == "" && !capF && heurWeightsDistinct(dF.Criteria, pF.Weights) {
+								orderedF := *limited_rationality.OrderAlternatives(params.RandomAlternativesOrdering, &dF.ConsideredAlternatives,
+									utils.RandomBasedSeedValueGenerator(params.RandomSeed))
+								m2 := Meta{Case: c, Stage: "check-c12-after-biases", Input: J{"request": q2}, Key: string(js2), GoOut: heurRankingJSON(&tr.Choice.Result)}
+								o.Spec(m2, L(A("check-c12"), altsSX(orderedF), wcritsSX(*wcF), heurLevelsSX(lvF), aspEntriesSX(&tr.Choice.Result)))
+								o.count("after-biases")
+							}
+						}
+					}
+				}
+			}
 		}
 	}
 }
